@@ -295,9 +295,7 @@ def production_cases(rep, tier):
             # a symbol of the production that stands for one of several keyword phrases (join kind, scope, level ...): every phrase in this production -
             # printers that treat one phrase specially (`CROSS JOIN` without its ON clause) are seen only with that phrase in that position
             try:
-                ctx_ = d.contexts()
-                me_ = d.min_expansions()
-                pre_, suf_ = ctx_[p.name]
+                pre_, suf_, me_ = corpus.production_frame(dname, num)
                 for i_s, s_ in enumerate(p.prod):
                     alts_ = [tuple(a_.prod) for a_ in d.prods[1:] if a_.name == s_ and 1 <= len(a_.prod) <= 3 and all(x_ in d.terminals for x_ in a_.prod)]
                     if len(alts_) < 2 or len(alts_) > 40 or s_ == 'id':
